@@ -36,6 +36,15 @@ def vec(xs, side):
     return np.array(xs, dtype=float) if side == "numpy" else cs.DM([float(t) for t in xs])
 
 
+vec0 = vec
+
+
+def _ro_vec(xs, side):
+    a = np.array(xs, dtype=float)
+    a.flags.writeable = False
+    return a
+
+
 def link_pars(r):
     return dict(lam=r.choice((1, 2, 3, 4, 2.5)), L=r.uniform(0.4, 1.6), rho_max=r.uniform(160, 200),
                 rho_crit=r.uniform(25, 40), v_free=r.uniform(90, 130), a=r.uniform(1.2, 3.2))
@@ -71,6 +80,7 @@ def direct_calls(M, rec, rng, reps):
         side = rng.choice(("numpy", "casadi"))
         E = EN if side == "numpy" else EC
         smode = rng.choice(("np0d", "npf", "np1")) if side == "numpy" else "dm"
+        vec = vec0
         s = lambda x: shp(x, smode)  # noqa: E731
         p = link_pars(rng)
         T = rng.choice((T0, T0, 5 / 3600, 15 / 3600, 1.5))
